@@ -8,3 +8,4 @@
    Texts        the printers on the intervals of group (normalize ..): the texts of contains_generic *)
 From Verif.Tie.Vers Require Common Valid Constraints Code Printers Pypi Texts.
 From Verif.Tie.Vers Require CoreAlternating CoreGroup.
+From Verif.Tie.Vers Require CoreGroupTie CoreToRanges CoreDispatch.
